@@ -97,7 +97,7 @@ ASSUMPTIONS = [
     "is separated from the (k+1)-th (relative gap >= 1e-3)",
 ]
 
-QUICK_BUDGET_S = 180
+QUICK_BUDGET_S = 300
 THOROUGH_BUDGET_S = 1500
 
 
